@@ -279,9 +279,13 @@ func (idx *HNSWIndex) Add(vector VectorNode) error {
 		return nil
 	}
 
+	// Register the node before linking it: pruneConnections resolves neighbor IDs
+	// through idx.nodes and would otherwise drop the new node from every full
+	// neighbor list, leaving it without incoming edges
+	idx.nodes[id] = node
+
 	// Insert into graph
 	idx.insertNode(node)
-	idx.nodes[id] = node
 
 	idx.mu.Unlock()
 	return nil
